@@ -99,6 +99,8 @@ def run(ctx):
         if not v["ok"]:
             ctx.violation("C06: scenario %s: runs disagree (%s): %s" % (g["id"], v["what"], v["witness"]),
                           {"kind": "c06-det", "scenario": g["id"], "witness": v["witness"], "what": v["what"]}, sig={"scenario": g["id"], "kind": "det"})
+    from .. import combo
+    combo.run(ctx, binary, {"C06"}, 40 if quick else 400, "C06")
     ctx.sample({"scenario": scs[0]["id"], "files": {"/".join(e["p"]): (e["k"], len(e.get("meta", {}).get("data", b""))) for e in scs[0]["fs0"]}})
     ctx.sample({"group_verdict": dv[0], "runs_compared": len(drecs[0]["runs"])})
     ctx.rule = ("trees mixing many small files, 3-8-block files, nested directories and links; each scenario run with both drivers, workers "
